@@ -83,6 +83,16 @@ G = {}      # worker globals (inherited by fork)
 # modes
 # --------------------------------------------------------------------------
 
+def _default_signals():
+    """Child set-up: xz does not hook signals that it inherits as ignored (e.g. SIGHUP under nohup) and an
+    inherited signal mask would delay them, so the verdict would depend on how the check itself was started.
+    Every run starts with default dispositions and an empty mask."""
+    import signal
+    for sg in (signal.SIGINT, signal.SIGTERM, signal.SIGHUP, signal.SIGPIPE, signal.SIGXCPU, signal.SIGXFSZ):
+        signal.signal(sg, signal.SIG_DFL)
+    signal.pthread_sigmask(signal.SIG_SETMASK, [])
+
+
 class Mode:
     def __init__(self, name, opts, files, pairs, keep=False, stdout=None, stdin=None, nosync=False, invalid=False,
                  listfile=False, witness=False, mixed=False):
@@ -378,7 +388,8 @@ def run_once(mode, plan, rundir=None, strace_inject=None, strace=False):
         stdout = fout
     timed_out = False
     try:
-        proc = subprocess.Popen(argv, stdin=stdin, stdout=stdout, stderr=subprocess.PIPE, env=env, pass_fds=pass_fds)
+        proc = subprocess.Popen(argv, stdin=stdin, stdout=stdout, stderr=subprocess.PIPE, env=env, pass_fds=pass_fds,
+                                preexec_fn=_default_signals)
         try:
             so, se = proc.communicate(timeout=WATCHDOG_S)
         except subprocess.TimeoutExpired:
